@@ -200,6 +200,30 @@ def integration_facts(prog: Program, fw: str, ci: ClassInfo) -> Tuple[Dict[str, 
     text_arg = dotted(dc.args[0]) if dc.args else None
     text_defs = [n for n in cfg.stmt_nodes() if text_arg in assigned_names(n)]
     facts['dispatch_input'] = [norm(n.ast.value)[:60].replace('await ', '') for n in text_defs if isinstance(n.ast, ast.Assign)]
+    # the dispatcher receives the request body decoded to text by the framework (so that an undecodable body is a 400 at the HTTP
+    # layer): aiohttp `await request.text()`, werkzeug / flask `request.get_data(as_text=True)`
+    from ..flow import Flow
+    fl_ = Flow(cfg)
+    body_kinds = set()
+    for al in (fl_.alts(dn, dc.args[0]) if dc.args else []):
+        v_ = al.expr
+        while isinstance(v_, ast.Await):
+            v_ = v_.value
+        if isinstance(v_, ast.Call) and isinstance(v_.func, ast.Attribute) and v_.func.attr == 'text' and not v_.args:
+            body_kinds.add('text')
+        elif isinstance(v_, ast.Call) and isinstance(v_.func, ast.Attribute) and v_.func.attr == 'get_data':
+            as_text = [kw.value for kw in v_.keywords if kw.arg == 'as_text']
+            body_kinds.add('text' if as_text and isinstance(as_text[0], ast.Constant) and as_text[0].value is True else 'bytes')
+        elif isinstance(v_, ast.Attribute) and v_.attr == 'data':
+            body_kinds.add('bytes')
+        else:
+            body_kinds.add('other:' + norm(v_)[:40])
+    facts['body'] = sorted(body_kinds)
+    if body_kinds != {'text'}:
+        problems.append(('RELAY', f'request body handed to the dispatcher as {sorted(body_kinds)}', dn.line,
+                         f'{fw}: the dispatcher must receive the body decoded to text by the framework (aiohttp `await request.text()`, '
+                         f'werkzeug/flask `get_data(as_text=True)`); with raw bytes an undecodable body is no longer refused with 400 at the HTTP '
+                         f'layer and the integrations stop agreeing on the same request'))
     none_edges = []
     for c in cfg.nodes:
         if c.kind == 'cond':
